@@ -205,8 +205,8 @@ def run(ctx):
     ctx.assumptions += [
         "exact real arithmetic in the theorems: sums, minima and maxima over a multiset do not depend on the order; the round-off of the different summation orders is bounded empirically (tolerance below)",
         "slope limiter and half-step prediction are uninterpreted per-cell maps (they can only write the gradients / the primitives of their own cell)",
-        "schedule_independent_partial: proved for task-level atomicity (C07/C08) and under the hypothesis that the order respects the data dependences `mustPrecede`; that every linear extension of the task graph does so is proved (conflicting tasks of different phases are ordered by the graph)",
-        "single_thread_deterministic: the one-thread executor is a function of the input in the model; absence of other nondeterminism sources (uninitialised memory, time, addresses) is only tested by the bit comparison of two runs",
+        "schedule_independent / execution_layout_independent: tasks are atomic state transformers (a parallel run is serialised in the order the tasks complete; that concurrently running tasks touch disjoint subgrids and that every task runs exactly once after its parents is C07, the lock discipline behind it C08)",
+        "single_thread_deterministic: in the model one thread leaves no scheduling choice (the order is a function of the layout and of the queue discipline, independent of the hydro data); absence of other nondeterminism sources (uninitialised memory, time, addresses) is only tested by the bit comparison of two one-thread runs; that the loop runs all tasks is C07's progress theorem",
     ]
     ok = ctx.obligations("CMacVerif.Props.C10", ["drv_c10", "drv_c04"])
     ctx.cov["tolerance"] = {"relative_per_face": TOL_PER_FACE, "cap": TOL_CAP}
@@ -255,6 +255,6 @@ def replay(ctx, path):
 
 MANIFEST = dict(
     category="proof",
-    text="Lean theorems for EVERY pair of subgrid layouts of the same global grid (any number of subgrids and cells per axis, any periodicity): the flux calls and the gradient calls of all sweeps are the same multiset (a permutation of the calls of the plain sequential sweep over the undivided grid); every call of a sweep reads only what no call of that sweep writes and accumulates with + / min / max, so any two calls commute and the cell states after one step are identical for all layouts and equal to the sequential sweep, for any flux function, limiter, prediction, state and dt (exact arithmetic); any execution order of the tasks that respects the data dependences gives the same state, and every linear extension of C07's task graph respects them. Tied to the code by full state dumps of real steps (layout vs undivided grid vs another layout vs other thread counts, two one-thread runs bit for bit) and by the per-call logs compared as multisets.",
+    text="Lean theorems for EVERY pair of subgrid layouts of the same global grid (any number of subgrids and cells per axis, any periodicity): the flux calls and the gradient calls of all sweeps are the same multiset (a permutation of the calls of the plain sequential sweep over the undivided grid); every call of a sweep reads only what no call of that sweep writes and accumulates with + / min / max, so any two calls commute and the cell states after one step are identical for all layouts and equal to the sequential sweep, for any flux function, limiter, prediction, state and dt (exact arithmetic); every linear extension of C07's task graph (= every completion order of the worker loop, any number of threads) gives the same state on every cell, namely that of the phase-by-phase step, because conflicting tasks of different phases are ordered by the graph and all other tasks commute; hence any layout + any schedule = the sequential sweep; with one thread the execution order is a function of layout and queue discipline only. Tied to the code by full state dumps of real steps (layout vs undivided grid vs another layout vs other thread counts, two one-thread runs bit for bit) and by the per-call logs compared as multisets.",
     note="Trusted: Lean kernel + 3 axioms; models shared with C04 (bit-exact cell-level correspondence there) and C07 (task graph tied by table dumps); exact arithmetic (round-off of summation order bounded empirically: 1e-13 x number of faces); task-level atomicity from C07/C08; bit-reproducibility of one-thread runs is tested, the model only shows that no scheduling choice remains.",
     technique="Lean 4 proof (permutation + commutation of accumulating calls, trace-commutation argument over the task graph) + differential runs of the real hooked binary across layouts and thread counts")
